@@ -63,6 +63,10 @@ func (h *hashWriter) add(s string) {
 	h.sum = f.Sum64()
 }
 
+// traceFilters / traceStats configure runTrace (set by the sub mode before enumeration).
+var traceFilters = c20Filters()
+var traceStats bool
+
 func c20Filters() []model.FilterSpec {
 	return []model.FilterSpec{
 		{Params: []ct.Comp{ct.P}},                       // f0 typed
@@ -138,6 +142,9 @@ func (t *traceWorld) observe() {
 		sb.WriteString(out + "|")
 	}
 	sb.WriteString(fmt.Sprintf("locked=%v", x.W.IsLocked()))
+	if traceStats {
+		sb.WriteString(" stats=" + x.StatsDigest())
+	}
 	t.h.add(sb.String())
 	if t.log != nil {
 		t.log = append(t.log, "  obs: "+sb.String())
@@ -211,7 +218,7 @@ func (t *traceWorld) misuse(op model.Op) string {
 
 // runTrace executes a history; returns the trace digest and the enabled successors.
 func runTrace(cfg drv.Config, prelude, hist []model.Op, alpha func(t *traceWorld) []model.Op, verbose bool) (uint64, []model.Op, []string) {
-	x := drv.NewWorld(cfg, c20Filters(), nil, 2, drv.Oracle{})
+	x := drv.NewWorld(cfg, traceFilters, nil, 2, drv.Oracle{})
 	t := &traceWorld{x: x, qs: make([]api.Query, 2), qf: make([]int, 2)}
 	if verbose {
 		t.log = []string{}
